@@ -1771,6 +1771,7 @@ class Authenticated(BaseClientHandler):
         #
         expunge_cmd = IMAPClientCommand("A001 EXPUNGE")
         expunge_cmd.command = IMAPCommand.EXPUNGE
+        expunge_cmd.expunge_regardless = True
 
         # Anything queued for this client during the copy phase (eg: FETCH's
         # for newly found messages) uses the message sequence numbers from
